@@ -529,7 +529,12 @@ static int wrap_run(const char *seq)
     if (vh_violations() != v0) {
         /* model and implementation may have diverged: empty the real registry directly so that the next sequence starts clean */
         for (int g = 0; g < 64 && active_instances.slh_first; g++) liberasurecode_instance_destroy(active_instances.slh_first->idesc);
-        if (active_instances.slh_first) { fprintf(stderr, "wrap: cannot empty the registry\n"); exit(2); }
+        if (active_instances.slh_first) {
+            /* live instances that can no longer be destroyed: a violation in its own right; this process is of no further use, the
+             * supervisor starts a fresh executor after this case */
+            vh_violation("registry-not-empty", "after sequence %s the registry still holds instances that destroy refuses", seq);
+            fflush(NULL); _exit(3);
+        }
         return 1;
     }
     while (M.n) op_destroy(M.n - 1, "teardown");
